@@ -56,6 +56,7 @@ type FuncContract struct {
 	Borrows   bool   // pointer arguments are not retained by the callee
 	NoFrame   bool   // do not generate frame obligation
 	Variant   string // distinguishes several contract blocks for one function (e.g. "bv")
+	Uses      map[string]string // callee key -> contract variant to apply at calls from this function
 	File      string
 	Line      int
 	Used      bool
@@ -482,6 +483,16 @@ func parseFuncClause(f *FuncContract, file string, ln int, kw, rest string) erro
 	case "mode":
 		f.Mode = rest
 		f.ModeSet = true
+	case "uses":
+		// uses <callee key> variant <name>
+		i := strings.LastIndex(rest, " variant ")
+		if i < 0 {
+			return errf("uses: expected '<callee> variant <name>'")
+		}
+		if f.Uses == nil {
+			f.Uses = map[string]string{}
+		}
+		f.Uses[strings.TrimSpace(rest[:i])] = strings.TrimSpace(rest[i+len(" variant "):])
 	case "pure":
 		f.Pure = true
 	case "trusted":
